@@ -254,8 +254,11 @@ class MLMCResults:
         nsum2 = self._ncms_dp.ncm_second
         nsum3 = self._ncms_dp.ncm_third
         nsum4 = self._ncms_dp.ncm_fourth
+        # fourth central moment over the squared variance (a level without dispersion has no kurtosis: 0); dividing by
+        # max(1, variance) reported the fourth central moment itself for every level with a variance below 1
+        variance = nsum2 - nsum1**2
         val = (nsum4 - 4 * nsum3 * nsum1 + 6 * nsum2 * nsum1**2 - 3 * nsum1**4) / (
-            np.maximum(1, nsum2 - nsum1**2)
+            np.where(variance > 0, variance, 1.0)
         ) ** 2
         return val
 
